@@ -613,11 +613,14 @@ impl<W: WorldOps> Engine<W> {
     }
 
     pub fn op_clear_events(&mut self, wi: usize) {
+        // the random draws happen in every configuration so that histories stay comparable
+        let world_level = self.rng.chance(1, 3);
+        let pick = self.rng.below(self.archs.len());
         if !self.events {
             return;
         }
         let wid = self.slot(wi).m.id;
-        if self.rng.chance(1, 3) {
+        if world_level {
             self.rep.log_op(format!("w{wid} World::clear_events"));
             self.rep.count("op.clear_events.world");
             let s = self.worlds[wi].as_mut().unwrap();
@@ -630,7 +633,7 @@ impl<W: WorldOps> Engine<W> {
                 a.destroyed_ev.clear();
             }
         } else {
-            let ai = self.rng.below(self.archs.len());
+            let ai = pick;
             let a = self.archs[ai];
             self.rep.log_op(format!("w{wid} {}::clear_events", a.name()));
             self.rep.count("op.clear_events.archetype");
